@@ -130,6 +130,8 @@ class DOO(Algorithm):
         if delta is None:
             # a function of h that returns delta
             self.delta = self.delta_init
+        else:
+            self.delta = delta
         self.iteration = 0
         self.n = n
 
